@@ -1,4 +1,5 @@
 import XC.Model.C32
+import XC.Model.C32_Wire
 namespace XC.C32
 
 /-! op line:
@@ -200,8 +201,15 @@ def parseCfg (o : Op) : Option Cfg := do
 def parseReads (s : String) : Option (List Read) :=
   if s == "-" then some [] else (s.splitOn ";").mapM parseReq
 
+/-- `sdata sid=<hex> user=<hex> svc=<hex> meth=<hex> algo=<hex> key=<hex>` → the signed bytes -/
+def handleSData (o : Op) : String :=
+  match o.hex? "sid", o.hex? "user", o.hex? "svc", o.hex? "meth", o.hex? "algo", o.hex? "key" with
+  | some a, some b, some c, some d, some e, some f => toHex (signedData a b c d e f)
+  | _, _, _, _, _, _ => "bad-op"
+
 def handle (line : String) : String :=
   let o := parseOp line
+  if o.cmd == "sdata" then handleSData o else
   if o.cmd != "sauth" then "bad-op" else
   match parseCfg o, (o.get? "reqs").bind parseReads with
   | some cfg, some reads =>
